@@ -1,6 +1,6 @@
-#check @List.min?_eq_some_iff
-#check @List.max?_eq_some_iff
-#check @List.min?_mem
-#check @List.foldl_min
-example : [3, 1, (2:Int)].min? = some 1 := by decide
-#print Std.IsLinearOrder
+example : DecidableEq (Option Int × Option Int × Option String × Option String) := inferInstance
+example : DecidableEq (Option Int × Option Int × Option String) := inferInstance
+example : DecidableEq (List (Option Int × Option Int × Option String × Option String)) := inferInstance
+example : DecidableEq (Option (List (Option Int × Option Int × Option String × Option String))) := inferInstance
+example : DecidableEq (Option (Option (List (Option Int × Option Int × Option String × Option String)))) := inferInstance
+example : DecidableEq (Int × Int × Int × Int) := inferInstance
